@@ -159,6 +159,7 @@ def run(ctx):
     # ---------------------------------------------------------------- T decimal lattice
     from ..drivers import acct_dec
     dtr = acct_dec.random_histories(ctx.pick(60, 1200), ctx.seed, first_id=tid + 1)
+    dtr += acct_dec.split_histories(ctx.pick(60, 800), ctx.seed, first_id=tid + 1 + len(dtr))   # exact-boundary scenarios
     dverd, dres = acct_dec.validate(dtr, ctx.scratch)
     dbad = acct_dec.report(ctx, PID, dtr, dverd)
     ctx.log("T decimal: %d histories, %d events, %d rejected" % (len(dtr), sum(len(t["ev"]) for t in dtr), dbad))
